@@ -19,6 +19,17 @@ def lastError {A : Type} (err : A → ErrKind) : List A → ErrKind
 /-- the error of a timeout-class failure: could not send / nothing received -/
 def attemptError (sendFault : Bool) : ErrKind := if sendFault then .packetSend else .packetReceive
 
+/-! ### replies of several datagrams, partly delivered -/
+
+/-- `got` are some of the datagrams `pool`, each taken at most once, in any order — and NOT all of them -/
+def selects : List Bytes → List Bytes → Bool
+  | [], pool => !pool.isEmpty
+  | d :: r, pool => pool.contains d && selects r (pool.erase d)
+
+/-- what a failed attempt still receives of a reply made of the datagrams `pool`: nothing, or an incomplete selection
+of them (a reply of ONE datagram therefore admits nothing but `[]`) -/
+def partOf (got pool : List Bytes) : Bool := got.isEmpty || selects got pool
+
 /-! ### units made of ONE exchange (request, one datagram back): Quake, GameSpy 2
 
 A plan: the attempts that end in a timeout-class failure — `false`: the request goes out and nothing comes back,
